@@ -241,6 +241,10 @@ deriving Repr
 structure M7 where
   delay : Bool := false
   retry : Option Nat := none
+  /-- `WithRetry` with the library backoff (`MaxElapsedTime` one epoch) instead of the scripted one -/
+  fresh : Bool := false
+  /-- per key: the epoch in which its record's backoff object was constructed or last reset, when known -/
+  born : List (Nat × Nat) := []
   hasCtx : Bool := false
   epoch : Nat := 0
   runs : List Run := []
@@ -353,7 +357,7 @@ def monC07 : ObsMonitor Obs M7 where
   init := {}
   step := fun m o =>
     match o with
-    | .config c => some { m with delay := c.delay, retry := c.retry }
+    | .config c => some { m with delay := c.delay, retry := c.retry, fresh := c.fresh }
     | .inv id op =>
       let m := match op with
         | .setContext (some _) _ => { m with cleared := none }
@@ -366,11 +370,11 @@ def monC07 : ObsMonitor Obs M7 where
           | .resetRoutine k' => k' == k
           | .resetAll => true
           | _ => false) then
-        some { m with fails := alSet m.fails k 0 }
+        some { m with fails := alSet m.fails k 0, born := alSet m.born k m.epoch }
       else
         -- the constructor ran for a key that was not in the set: a new generation
         some { m with gstarts := alSet m.gstarts k (d :: (alGet m.gstarts k).getD []),
-                      fails := alSet m.fails k 0 }
+                      fails := alSet m.fails k 0, born := alSet m.born k m.epoch }
     | .ret id res =>
       match m.pending.find? (·.1 == id) with
       | some (_, op, overlapped) =>
@@ -395,7 +399,10 @@ def monC07 : ObsMonitor Obs M7 where
         else
           let m := { m with runs := m.runs.set j { r with running := false } }
           match o with
-          | .ok => some (if r.stale then m else { m with fails := alSet m.fails r.key 0 })
+          | .ok =>
+            -- a success resets the backoff; a run that a call may have replaced may or may not have counted
+            some (if r.stale then { m with born := m.born.filter (·.1 != r.key) }
+                  else { m with fails := alSet m.fails r.key 0, born := alSet m.born r.key m.epoch })
           | .canceled => some m
           | .err =>
             -- `fails` over-approximates the backoff's count: a failure of a run that a call may have
@@ -406,7 +413,9 @@ def monC07 : ObsMonitor Obs M7 where
                || m.dead.any (fun x => x.1 == r.key && x.2.1 == curGen m r.key) then some m
             else
               match m.retry with
-              | some lim => some (if n < lim then { m with owed := (r.key, m.epoch) :: m.owed } else m)
+              | some lim =>
+                let arm := if m.fresh then alGet m.born r.key == some m.epoch else decide (n < lim)
+                some (if arm then { m with owed := (r.key, m.epoch) :: m.owed } else m)
               | none => some m
     | .probe j c =>
       match m.runs[j]? with
@@ -417,8 +426,10 @@ def monC07 : ObsMonitor Obs M7 where
     | .quiesce =>
       -- the keys that were removed with a delay and not requested again are gone now
       let m := (m.leavingK.filter (·.2 < m.epoch)).foldl (fun m p => m.kill p.1) m
+      -- (4) every call has returned
+      if !m.pending.isEmpty then none
       -- (3) every retry owed from an earlier epoch has happened
-      if m.advanced && m.owed.any (fun x => x.2 < m.epoch) then none
+      else if m.advanced && m.owed.any (fun x => x.2 < m.epoch) then none
       else
         some { m with advanced := false
                       dead := m.dead.map fun x => (x.1, x.2.1, true)
@@ -645,7 +656,9 @@ def monC06o : ObsMonitor Obs M6o where
 The product of `monC07a` (which run belongs to which key) and `monC06o` (what is known about the key
 set), with one more check: when no call is in progress and the key of a run is known to be out of the
 set (removed at once, or removed with a delay and the delay has expired by a quiescence point), or the
-context is known to be cleared, a probe of the run's context answers "cancelled". -/
+context is known to be cleared, a probe of the run's context answers "cancelled". And: no call is still in
+progress at a quiescence point (a call that blocks — e.g. on the mutex held by an exit callback — never
+returns). -/
 
 structure M7c where
   a : M7a := {}
@@ -657,6 +670,8 @@ def M7c.probeBad (m : M7c) : Obs → Bool
     match m.a.runs[j]? with
     | some (k, _, _) => m.o.pending.isEmpty && (m.o.st k == .absent || m.o.hasCtx == some false) && !c
     | none => false
+  -- every call returns: none is in progress at a quiescence point
+  | .quiesce => !m.o.pending.isEmpty
   | _ => false
 
 def monC07c : ObsMonitor Obs M7c where
